@@ -2003,6 +2003,24 @@ where
                 }
             }
 
+            // The reports might have filled the chunk up to its last byte, while closing
+            // the array (and opening the one for the events, if they follow) needs space
+            // outside of the reserve too. Continue in a fresh chunk then, as for a report
+            // that does not fit, instead of failing the whole interaction with `NoSpace`.
+            let needed = if self.req.event_requests()?.is_some() {
+                3
+            } else {
+                1
+            };
+
+            if wb.empty_as_mut_slice().len() < needed
+                && !self
+                    .send(ReportDataChunkState::ChunkingAttributes, false, wb)
+                    .await?
+            {
+                return Ok(false);
+            }
+
             wb.end_container()?;
         }
 
@@ -2105,6 +2123,16 @@ where
                 {
                     return Ok(false);
                 }
+            }
+
+            // Same as for the attribute reports: the events might have filled the chunk
+            // up to its last byte, so closing the array might need a fresh chunk
+            if wb.empty_as_mut_slice().is_empty()
+                && !self
+                    .send(ReportDataChunkState::ChunkingEvents, false, wb)
+                    .await?
+            {
+                return Ok(false);
             }
 
             wb.end_container()?;
